@@ -203,9 +203,11 @@ async def _run_hub(texts):
             pass
 
     core_ports._ports_by_id.clear()
-    ports = await core_ports.load([{'driver': HubPort, 'port_id': 'self'}], trigger_add=False)
+    ports = await core_ports.load([{'driver': HubPort, 'port_id': 'self'}, {'driver': HubPort, 'port_id': 'other'}], trigger_add=False)
     port = ports[0]
     await port.enable()
+    await ports[1].enable()
+    await ports[1].set_attr('expression', 'ADD($self, 1)')     # so that `$other` in an expression of `self` closes a loop
     handler = types.SimpleNamespace(access_level=core_api.ACCESS_LEVEL_ADMIN, username='c03',
                                     request=types.SimpleNamespace(headers={}, method='PATCH', path='/ports/self', body=b'',
                                                                   query_arguments={}))
@@ -220,6 +222,8 @@ async def _run_hub(texts):
             except Exception as exn:  # noqa: BLE001
                 want = ('crash', '%s: %s' % (type(exn).__name__, exn))
             before = str(port.get_expression() or '')
+            if want[0] == 'ok' and '$other' in e.get_deps():
+                want = ('err', {'reason': 'circular-dependency'})
             try:
                 await api_ports.patch_port(handler, 'self', {'expression': text})
                 got = ('ok',)
@@ -235,6 +239,35 @@ async def _run_hub(texts):
             reported_later = (await port.to_json()).get('expression')
             out.append({'text': text, 'want': want, 'got': got, 'before': before, 'held': held,
                         'reported_now': reported_now, 'reported_later': reported_later})
+        # the transforms go through the same parser, plus the rule that they may only read the port itself
+        from qtoggleserver.core.expressions import ROLE_TRANSFORM_READ, ROLE_TRANSFORM_WRITE
+        for k, text in enumerate(texts[:len(texts) // 3] + ['MUL($other, 10)', 'ADD($, $other)', 'MUL($, 10)', '$other', ' SUB( $self , 1)']):
+            attr, role = (('transform_write', ROLE_TRANSFORM_WRITE), ('transform_read', ROLE_TRANSFORM_READ))[k % 2]
+            if text == '':
+                continue
+            try:
+                e = expressions.parse('self', text, role)
+                ext = sorted(d[1:] for d in e.get_deps() if d.startswith('$') and d != '$self')
+                want = ('ext', ext) if ext else ('ok', str(e))
+            except ExpressionParseError as exn:
+                want = ('err', exn.to_json())
+            except Exception as exn:  # noqa: BLE001
+                want = ('crash', '%s: %s' % (type(exn).__name__, exn))
+            before = (await port.to_json()).get(attr)
+            try:
+                await api_ports.patch_port(handler, 'self', {attr: text})
+                got = ('ok',)
+            except core_api.APIError as exn:
+                got = ('err', exn.status, exn.code, dict(exn.params))
+            except Exception as exn:  # noqa: BLE001
+                got = ('crash', '%s: %s' % (type(exn).__name__, exn))
+            await main.update()
+            for _ in range(3):
+                await asyncio.sleep(0)
+            out.append({'text': text, 'attr': attr, 'want': want, 'got': got, 'before': before,
+                        'reported_later': (await port.to_json()).get(attr)})
+            if got == ('ok',):
+                await port.set_attr(attr, '')
     finally:
         for t in (port._write_value_task, port._eval_task):
             if t is not None and not t.done():
@@ -254,8 +287,35 @@ def run_hub(ctx, res, texts):
     for r in rows:
         res['evaluations'] += 1
         text, want, got = r['text'], r['want'], r['got']
-        d['hub:' + want[0]] = d.get('hub:' + want[0], 0) + 1
         problem = None
+        if 'attr' in r:
+            d['hub:%s:%s' % (r['attr'], want[0])] = d.get('hub:%s:%s' % (r['attr'], want[0]), 0) + 1
+            if want[0] == 'ok':
+                if got != ('ok',):
+                    problem = 'the parser accepts the text and it reads only the port itself, but the request is answered %r' % (got,)
+                elif r['reported_later'] != want[1]:
+                    problem = 'accepted, but GET reports %r instead of the canonical text %r' % (r['reported_later'], want[1])
+            elif want[0] == 'ext':
+                det = got[3].get('details') if got[0] == 'err' and got[1] == 400 else None
+                if not det or det.get('reason') != 'external-dependency' or det.get('token') not in want[1]:
+                    problem = 'the text reads other ports (%s) but the request is answered %r' % (', '.join(want[1]), got)
+                elif r['reported_later'] != r['before']:
+                    problem = 'rejected, but the transform changed from %r to %r' % (r['before'], r['reported_later'])
+            elif want[0] == 'err':
+                if got[0] != 'err' or got[1] != 400 or got[3].get('details') != want[1]:
+                    problem = 'the parser rejects the text (%s) but the request is answered %r' % (want[1], got)
+                elif r['reported_later'] != r['before']:
+                    problem = 'rejected, but the transform changed from %r to %r' % (r['before'], r['reported_later'])
+            else:
+                res['tie_failures'].append({'text': text, 'note': 'parser raised a non-parse exception: %s' % want[1]})
+                continue
+            if problem:
+                res['violations'].append({
+                    'key': {'kind': 'hub-entry-point', 'attribute': r['attr'], 'parser_accepts': want[0] != 'err'},
+                    'what': 'PATCH /ports/self {"%s": %r}: %s' % (r['attr'], text, problem),
+                    'case': {'text': text, 'attribute': r['attr'], 'through': 'qtoggleserver.core.api.funcs.ports.patch_port'}, 'observed': r})
+            continue
+        d['hub:' + want[0]] = d.get('hub:' + want[0], 0) + 1
         if text == '':
             # documented short-cut of the hub: the empty text removes the expression
             if got != ('ok',) or r['held'] != '':
@@ -438,7 +498,7 @@ def check(ctx, res):
     for i in range(0, len(texts), 5000):
         allres += run_batch(ctx, res, texts[i:i + 5000], hist, 'b%d' % i)
     # the hub's entry point on a sample of the same texts, plus the whitespace corner cases
-    hub_texts = ['', ' ', '   ', '\t', ' \n ', '  ADD(1, #)', ' ADD(1,2) ', 'ADD(1, 2)', '  $p1', ' NOSUCH(1)', 'ADD( 1 ,2 )', '', 'SUB(1 2)',
+    hub_texts = ['$other', 'ADD($other, 1)', 'IF($p1, 2, MUL($other, 3))', '', ' ', '   ', '\t', ' \n ', '  ADD(1, #)', ' ADD(1,2) ', 'ADD(1, 2)', '  $p1', ' NOSUCH(1)', 'ADD( 1 ,2 )', '', 'SUB(1 2)',
                  '12', ' 12.50 ', 'GT(TIME(), 1552559696)', 'MUL($, 3.14159265)', '$', '@', '']
     hub_texts += [texts[ctx.rng.randrange(len(texts))] for _ in range(ctx.n(600, 6000))]
     run_hub(ctx, res, hub_texts)
